@@ -506,6 +506,59 @@ func extractGroup(repo, root string) error {
 		return fmt.Errorf("untranslated: no SetDeadline(time.Now().Add(…)) in timeoutCoordinator / no timeoutCoordinator literal in makeConnect")
 	}
 
+	// conn.go Conn.offsetCommit / Conn.offsetFetch: the loops that look for a per-partition error code in the answer must
+	// run over EVERY topic and partition — the only `return` allowed inside a `for … range` is the one guarded by an
+	// `if <…>.ErrorCode != 0`.  Fact: number of loops, number of other returns inside them.
+	connf, err := parse("conn.go")
+	if err != nil {
+		return err
+	}
+	var answerLoops []string
+	for _, name := range []string{"offsetCommit", "offsetFetch"} {
+		fd := funcOf(connf, "Conn", name)
+		if fd == nil {
+			return fmt.Errorf("untranslated: no (*Conn).%s", name)
+		}
+		loops, early := 0, 0
+		var walk func(n ast.Node, inLoop, guarded bool)
+		walk = func(n ast.Node, inLoop, guarded bool) {
+			ast.Inspect(n, func(m ast.Node) bool {
+				if m == nil || m == n {
+					return true
+				}
+				switch x := m.(type) {
+				case *ast.FuncLit:
+					return false // closures handed to readOperation: their returns are not the method's
+				case *ast.RangeStmt:
+					loops++
+					walk(x.Body, true, guarded)
+					return false
+				case *ast.ForStmt:
+					loops++
+					walk(x.Body, true, guarded)
+					return false
+				case *ast.IfStmt:
+					g := guarded || contains(x.Cond, func(c ast.Node) bool {
+						se, ok := c.(*ast.SelectorExpr)
+						return ok && se.Sel.Name == "ErrorCode"
+					})
+					walk(x.Body, inLoop, g)
+					if x.Else != nil {
+						walk(x.Else, inLoop, guarded)
+					}
+					return false
+				case *ast.ReturnStmt:
+					if inLoop && !guarded {
+						early++
+					}
+				}
+				return true
+			})
+		}
+		walk(fd.Body, false, false)
+		answerLoops = append(answerLoops, fmt.Sprintf("(%q, %d, %d)", name, loops, early))
+	}
+
 	// reader.go (*reader).run: the restart position.  `conn, <start>, err := r.initialize(ctx, <offset>)` is followed by an
 	// assignment `<x> = <start>`: it must be a plain assignment (not a `:=` that shadows) to the function's own offset
 	// parameter, so that the next (re)initialisation starts from where the fetcher stands.
@@ -574,6 +627,7 @@ func extractGroup(repo, root string) error {
 	fmt.Fprintf(&b, "def coordinatorDial : List String := [%s]\n", strings.Join(coordDial, ", "))
 	fmt.Fprintf(&b, "def coordinatorDeadlines : List (String × List String) := [%s]\n", strings.Join(deadlineFacts, ", "))
 	fmt.Fprintf(&b, "def connectTimeouts : List (String × String) := [%s]\n", strings.Join(connectFacts, ", "))
+	fmt.Fprintf(&b, "def connAnswerLoops : List (String × Nat × Nat) := [%s]\n", strings.Join(answerLoops, ", "))
 	fmt.Fprintf(&b, "def validateDefaults : List (String × String) := [%s]\n", strings.Join(validateDefaults, ", "))
 	fmt.Fprintf(&b, "def fetchVersionFilter : String := %q\n", versionOp)
 	fmt.Fprintf(&b, "def readerGroupOptions : List (String × String) := [%s]\n", strings.Join(optPairs, ", "))
